@@ -242,7 +242,9 @@ fn culprit_symbol(info: &PatInfo, v: &(i64, u32, u32, i32)) -> String {
     }
     c.sort();
     c.dedup();
-    c.truncate(2);
+    c.truncate(1);
+    // widths collapse: the symbol letter is the discriminator
+    let c: Vec<String> = c.into_iter().map(|s| s.chars().take(1).collect()).collect();
     if c.is_empty() {
         String::new()
     } else {
